@@ -157,6 +157,14 @@ func splitTop(s string) []string {
 // allmapsType evaluates the expression inside allmaps(...) to find the map type it designates.
 func (c *FnCtx) allmapsType(m string, sc *SpecCtx, pre *State) *types.Map {
 	inner := strings.TrimSuffix(strings.TrimPrefix(m, "allmaps("), ")")
+	if strings.HasPrefix(inner, "\"") && strings.HasSuffix(inner, "\"") {
+		// a Go map type written out
+		t := c.e.resolveGoType(strings.Trim(inner, "\""), sc.pkg, sc.pos)
+		if mt, ok := t.Underlying().(*types.Map); ok {
+			return mt
+		}
+		panic(toolErr("modifies %q: not a map type", m))
+	}
 	e, err := parseSpec(inner)
 	if err != nil {
 		panic(toolErr("modifies %q: %v", m, err))
